@@ -301,7 +301,18 @@ namespace ValueFlow
         }
 
         if (Token::simpleMatch(parent, "=") && astIsRHS(tok)) {
-            setTokenValue(parent, value, settings);
+            // the value of an assignment expression is the value that is stored: converted to the type of the left operand
+            const ValueType* lhsType = parent->astOperand1() ? parent->astOperand1()->valueType() : nullptr;
+            if (lhsType && lhsType->isIntegral() && lhsType->pointer == 0 &&
+                tok->valueType() && tok->valueType()->isIntegral() && tok->valueType()->pointer == 0 &&
+                (value.isIntValue() || value.isSymbolicValue())) {
+                if (value.isImpossible() || value.isSymbolicValue()) {
+                    if (isValuePreservingConversion(*tok->valueType(), *lhsType, false, settings))
+                        setTokenValue(parent, value, settings);
+                } else
+                    setTokenValueCast(parent, *lhsType, value, settings);
+            } else
+                setTokenValue(parent, value, settings);
             if (!value.isUninitValue())
                 return;
         }
